@@ -132,7 +132,37 @@ Qed.
 
 Lemma dispatch_total_refuted :
   exists k c, allowed k = false /\ lookup k c table = Some Ignored.
-Proof. exists K_del_stmt, MainLoop. split; vm_compute; reflexivity. Qed.
+Proof. exists K_serial_host_call, MainLoop. split; vm_compute; reflexivity. Qed.
+
+(* REPAIRED (the refutation above used to be witnessed by `del x`, one of 123 listed gaps): a statement that is
+   neither in the fixed set of the property nor the one listed gap is never dropped - it is translated or rejected *)
+Lemma dispatch_total : forall k c o,
+  lookup k c table = Some o -> allowed k = false -> known_gap k c = false -> o <> Ignored.
+Proof.
+  intros k c o H A G E. subst o. revert H A G.
+  destruct k, c; vm_compute; intros; congruence.
+Qed.
+
+(* every (kind, context) that was a listed gap until the repair is now rejected with an error, is outside the
+   fixed set and is no longer tolerated as a gap *)
+Definition former_gap_rejected (p : stmt_kind * context) : bool :=
+  negb (allowed (fst p)) && negb (known_gap (fst p) (snd p)) &&
+  match lookup (fst p) (snd p) table with Some o => outcome_eqb o Rejected | None => false end.
+
+Lemma former_gaps_rejected : forall p, In p former_gaps ->
+  lookup (fst p) (snd p) table = Some Rejected /\ allowed (fst p) = false /\ known_gap (fst p) (snd p) = false.
+Proof.
+  assert (H : forallb former_gap_rejected former_gaps = true) by (vm_compute; reflexivity).
+  rewrite forallb_forall in H. intros p Hp. specialize (H p Hp).
+  unfold former_gap_rejected in H.
+  apply andb_prop in H. destruct H as [H H3]. apply andb_prop in H. destruct H as [H1 H2].
+  apply negb_true_iff in H1. apply negb_true_iff in H2.
+  destruct (lookup (fst p) (snd p) table) as [o|]; [|discriminate].
+  destruct o; try discriminate. auto.
+Qed.
+
+Lemma former_gaps_count : (length former_gaps = 127)%nat /\ (length known_gaps = 4)%nat.
+Proof. split; vm_compute; reflexivity. Qed.
 
 (* `continue` (repaired): in a for/while loop it is translated in every context; directly in the body
    of the main loop it is translated (it ends the pass); outside any loop it is rejected *)
@@ -144,5 +174,5 @@ Lemma continue_accounted : forall c,
   known_gap K_continue_outside_loop c = false.
 Proof. intros []; vm_compute; repeat split; reflexivity. Qed.
 
-Lemma known_gaps_nonempty : (length known_gaps = 123)%nat.
+Lemma known_gaps_nonempty : (length known_gaps = 4)%nat.
 Proof. vm_compute. reflexivity. Qed.
